@@ -1116,6 +1116,43 @@ func (f *fn) checkOptional(checks []*check, uses []useSite, usedExempt map[strin
 		}
 		return false
 	}
+	// canon gives the canonical name of a guard: a boolean flag is itself;
+	// a count compared with zero (ncc != 0, ncc > 0, 0 < ncc) is "ncc!=0".
+	canon := func(e ast.Expr) string {
+		e = ast.Unparen(e)
+		if isBoolFlag(e) {
+			return types.ExprString(e)
+		}
+		be, ok := e.(*ast.BinaryExpr)
+		if !ok {
+			return ""
+		}
+		isZero := func(x ast.Expr) bool {
+			tv, ok := f.info.Types[x]
+			return ok && tv.Value != nil && tv.Value.ExactString() == "0"
+		}
+		intIdent := func(x ast.Expr) string {
+			id, ok := ast.Unparen(x).(*ast.Ident)
+			if !ok {
+				return ""
+			}
+			tv, ok := f.info.Types[id]
+			if !ok {
+				return ""
+			}
+			if b, ok := tv.Type.Underlying().(*types.Basic); ok && b.Info()&types.IsInteger != 0 {
+				return id.Name
+			}
+			return ""
+		}
+		switch {
+		case (be.Op == token.NEQ || be.Op == token.GTR) && isZero(be.Y) && intIdent(be.X) != "":
+			return intIdent(be.X) + "!=0"
+		case (be.Op == token.NEQ || be.Op == token.LSS) && isZero(be.X) && intIdent(be.Y) != "":
+			return intIdent(be.Y) + "!=0"
+		}
+		return ""
+	}
 	guards := map[types.Object]map[string]int{}
 	nchecks := map[types.Object]int{}
 	for _, c := range checks {
@@ -1135,8 +1172,8 @@ func (f *fn) checkOptional(checks []*check, uses []useSite, usedExempt map[strin
 				for _, x := range cj {
 					if f.mentionsLen(x, p) {
 						lenConj = true
-					} else if isBoolFlag(x) {
-						flags = append(flags, types.ExprString(x))
+					} else if g := canon(x); g != "" {
+						flags = append(flags, g)
 					}
 				}
 				if !lenConj {
@@ -1182,7 +1219,7 @@ func (f *fn) checkOptional(checks []*check, uses []useSite, usedExempt map[strin
 				case *ast.IfStmt:
 					if child == s.Body {
 						for _, x := range conjuncts(s.Cond) {
-							if types.ExprString(x) == G {
+							if canon(x) == G {
 								ok = true
 							}
 						}
@@ -1190,7 +1227,7 @@ func (f *fn) checkOptional(checks []*check, uses []useSite, usedExempt map[strin
 				case *ast.CaseClause:
 					for _, ce := range s.List {
 						for _, x := range conjuncts(ce) {
-							if types.ExprString(x) == G {
+							if canon(x) == G {
 								ok = true
 							}
 						}
